@@ -231,6 +231,16 @@ def corpus():
     # 1. scalars of all sizes, defaults, enum, vectors of each scalar, required string, file identifier
     S.append(Schema('bscal', [
         Enum('Color', 'byte', [('Red', 0), ('Green', 1), ('Blue', 7)]),
+        # enums of EVERY underlying type with members at the type's boundaries: table field, vector element, struct member, fixed-array element
+        Enum('EB', 'byte', [('Lo', -128), ('M1', -1), ('Z', 0), ('Hi', 127)]),
+        Enum('EUB', 'ubyte', [('Z', 0), ('P7', 128), ('Hi', 255)]),
+        Enum('ES', 'short', [('Lo', -32768), ('M1', -1), ('Z', 0), ('Hi', 32767)]),
+        Enum('EUS', 'ushort', [('Z', 0), ('P15', 32768), ('Hi', 65535)]),
+        Enum('EI', 'int', [('Lo', -2147483648), ('M1', -1), ('Z', 0), ('Hi', 2147483647)]),
+        Enum('EUI', 'uint', [('Z', 0), ('P31', 2147483648), ('Hi', 4294967295)]),
+        Enum('EL', 'long', [('Lo', -9223372036854775808), ('M32', -4294967296), ('M1', -1), ('Z', 0), ('P31', 2147483648), ('P32', 4294967296), ('Hi', 9223372036854775807)]),
+        Enum('EUL', 'ulong', [('Z', 0), ('P32', 4294967296), ('P63', 9223372036854775808), ('Hi', 18446744073709551615)]),
+        Struct('En', [('l', 'EL'), ('b', 'EB'), ('u', 'EUL'), ('w', ('EL', 2)), ('h', 'ES'), ('i', 'EUI')]),
         Struct('Pt', [('x', 'short'), ('y', 'byte')]),
         Table('Sc', [
             Field('b', 'bool', 'true'), Field('i8', 'byte', '-3'), Field('u8', 'ubyte'), Field('i16', 'short', '-300'),
@@ -242,7 +252,11 @@ def corpus():
             Field('opt', 'int', optional=True), Field('optf', 'double', optional=True),
             # defaults that need all 17 significant digits / 9 for float
             Field('oc', 'Color', optional=True), Field('ou8', 'ubyte', optional=True), Field('ob', 'bool', optional=True),
-            Field('f17', 'double', '0.30000000000000004'), Field('g17', 'double', '123456789.12345679'), Field('f9', 'float', '16777217.5')]),
+            Field('f17', 'double', '0.30000000000000004'), Field('g17', 'double', '123456789.12345679'), Field('f9', 'float', '16777217.5'),
+            Field('eb', 'EB', 'M1'), Field('eub', 'EUB'), Field('es', 'ES'), Field('eus', 'EUS', 'Hi'), Field('ei', 'EI', 'Lo'), Field('eui', 'EUI'),
+            Field('el', 'EL', 'P32'), Field('eul', 'EUL', 'Hi'), Field('el0', 'EL'), Field('oel', 'EL', optional=True),
+            Field('vel', '[EL]'), Field('veul', '[EUL]'), Field('vei', '[EI]'), Field('veb', '[EB]'), Field('veus', '[EUS]'),
+            Field('en', 'En'), Field('ven', '[En]')]),
     ], 'Sc', ident='SCAL'))
     # 2. structs with alignment 1..16 and force_align, nested structs, fixed arrays, struct roots
     S.append(Schema('bstru', [
